@@ -17,9 +17,16 @@ LoadedOK(e) == LET d == ToSet(e.keys) IN
 \* C02 / C15: an object loaded from a document of the documented domain can be written, and reads back unchanged
 CycleOK(e) == LET d == ToSet(e.keys) IN
   (e.out = "loaded" /\ Consistent(d)) => (e.redump = "ok" /\ e.reload_same)
+\* input / output documents: outcome class by the required keys, every value where the table says; written and read back unchanged
+LoadedIOOK(e) == LET d == ToSet(e.keys) IN
+  /\ e.out = OutcomeIO(e.kind, d)
+  /\ (e.out = "loaded" => \A k \in d : e.placed[k] = PlaceIO(e.kind, k))
+CycleIOOK(e) == e.out = "loaded" => (e.redump = "ok" /\ e.reload_same)
 Step ==
   /\ l <= Len(Traces[tid])
-  /\ LET e == Traces[tid][l] IN (IF IOEnv.QC_RULE = "cycle" THEN CycleOK(e) ELSE LoadedOK(e)) = TRUE
+  /\ LET e == Traces[tid][l] IN
+       (IF e.kind = "molecule" THEN (IF IOEnv.QC_RULE = "cycle" THEN CycleOK(e) ELSE LoadedOK(e))
+        ELSE (IF IOEnv.QC_RULE = "cycle" THEN CycleIOOK(e) ELSE LoadedIOOK(e))) = TRUE
   /\ l' = l + 1 /\ UNCHANGED <<vars, tid>>
   /\ TLCSet(tid, IF TLCGet(tid) < l THEN l ELSE TLCGet(tid))
 TSpec == TInit /\ [][Step]_tvars
